@@ -392,7 +392,7 @@ class UtilsValidateLoop(LoopSpec):
         ok = len(ms) == 2 and isinstance(ms[1], Seg) and ms[1].key[0] == "Validator.validate"
         yield "root-validated", ok
         if ok:
-            yield "against-the-schema-of-its-type", ms[1].key[1] is elem and S.truthy(S.eq(ms[1].key[3], elem["__type__"])) is True and (ms[1].key[4] is post["version"]) \
+            yield "against-the-schema-of-its-type", ms[1].key[1] is elem and S.truthy(S.eq(ms[1].key[3], S.lower(elem["__type__"]))) is True and (ms[1].key[4] is post["version"]) \
                 and ms[1].key[2] is False
 
 
@@ -425,7 +425,7 @@ class UtilsValidate(Contract):
             yield "per-root-in-order", seg.key[0] == "per-root-messages" and seg.key[1] is d
         else:
             want = d["__type__"] if case == "dict" else "map"
-            yield "root-type-schema", seg.key[0] == "Validator.validate" and seg.key[1] is d and S.truthy(S.eq(seg.key[3], want)) is True \
+            yield "root-type-schema", seg.key[0] == "Validator.validate" and seg.key[1] is d and S.truthy(S.eq(seg.key[3], S.lower(want))) is True \
                 and seg.key[4] is version and seg.key[2] is False
 
     def at_call(self, E, d, version=None):
